@@ -78,6 +78,7 @@ func replayCase(key string, raw json.RawMessage, cmds []*cmdInfo) int {
 			for _, cc := range ccs {
 				checkEncode(ci, cc)
 				checkDecode(ci, cc)
+				checkSparseDecode(ci, cc)
 				checkRanges(ci, cc)
 			}
 		}
@@ -87,6 +88,7 @@ func replayCase(key string, raw json.RawMessage, cmds []*cmdInfo) int {
 			checkPDCodec(cc)
 		}
 		finishDecodeReport()
+		finishSparseReport()
 	}
 	_ = apicodec.ModeRaw
 	violMu.Lock()
